@@ -192,7 +192,11 @@ class _Quadrature(torch.autograd.Function):
                 dfdts = torch.autograd.grad(f, tensor_params,
                                             grad_outputs=grad_ys,
                                             retain_graph=True,
-                                            create_graph=torch.is_grad_enabled())
+                                            create_graph=torch.is_grad_enabled(),
+                                            allow_unused=True)
+                # tensors that do not enter the integrand get a zero gradient
+                dfdts = tuple(torch.zeros_like(p) if g is None else g
+                              for (g, p) in zip(dfdts, tensor_params))
                 return dfdts
 
             # reconstruct grad_params
